@@ -456,11 +456,32 @@ def run_oracles(si, sm, viol, cover):
                 fin_state["mut"] = True
         if o[0] in ("end", "enderr", "panic"):
             fin_state = None
-        # resurrected objects are not destructed in this collection cycle
+        # resurrected objects are not destructed in this collection cycle.
+        # collect_debt (Stop::Full) entered mid-cycle may finish the current cycle AND run into the next one inside a
+        # single call (false alarm of check request 2): then only destructs that provably belong to the cycle of the
+        # resurrection are charged (entered while Sweeping: the object lies in the unswept part of `all` and is
+        # condemned there), and the set is forgotten unless the per-cycle `allocated` counter proves that no cycle
+        # boundary was crossed (finish_cycle resets it to 0 and nothing is allocated during a collection call).
+        may_cross = (o[0] == "collect" and len(o) > 2 and o[2] == "cd" and pre is not None
+                     and int(pre["cp"].split("!")[0]) != 0)
+        crossed = False
+        if may_cross and post is not None:
+            a0, a1 = int(pre["m"].split(",")[1]), int(post["m"].split(",")[1])
+            crossed = not (a0 > 0 and a1 == a0)
+        first_sweep = None
+        if may_cross and crossed and pre["p"] == "2":
+            objs = all_objs(pre)
+            ids = [i for (i, _, _, _) in objs]
+            sw = pre.get("sw", "-")
+            if sw != "-" and int(sw) in ids:
+                first_sweep = {i for (i, c, _, _) in objs[ids.index(int(sw)):] if c in "Ww"}
         for e in li.ev:
             if e[0] == "D" and a is not None and int(e[1:].split("!")[0]) in resurrected[a] and o[0] != "droparena" and not destroying:
+                if may_cross and crossed and (first_sweep is None or int(e[1:].split("!")[0]) not in first_sweep):
+                    cover["C07:resurrect:destruct-after-boundary-inside-collect_debt"] += 1
+                    continue
                 viol("C07", None, "object %s was resurrected in this cycle but destructed by `%s`" % (e[1:], li.optext), k)
-        if post is not None and a is not None and int(post["cp"].split("!")[0]) == 0:
+        if post is not None and a is not None and (int(post["cp"].split("!")[0]) == 0 or (may_cross and crossed)):
             resurrected[a].clear()
         # "no mutation since marking of this cycle began"
         if a is not None and post is not None:
